@@ -22,6 +22,8 @@
 //
 // op:  run <kind> <steer> <cancel> <workers> <queue> <shards> <bmax> <bwaitUs> <prod> <per> <mode> <closeAt> <closeDlUs> <hdlUs> <seed>
 //      kind  bp|bbp|wq|mb        steer none|wc|wn (mailbox window, close in between / not) |sc|sn (submit select)
+//                                |dd|dn (mailbox: item admitted in the drain window, its handler blocked, another item
+//                                 submitted meanwhile — must not start a second drain; dn = same without the hold)
 //      cancel bit 1 = CancelAcceptedOnClose + hook, bit 2 = CancelRunningOnClose   mode try|wait
 // out: ev=<tok>,<tok>,...   tokens (t = task id, s = shard):
 //      S<t>:<s> submit begins   A<t> accepted   F<t> full   X<t> closed   E<t> ctx error   Q<t> other error
@@ -80,6 +82,10 @@ func genC37(g *Gen) {
 			emit("bp", "sc", 0, 1+i%2, 4, 1, 1, 0, 1, 1+i, []string{"try", "wait"}[i%2], 0, 0, 0)
 			emit("bp", "sn", 0, 1+i%2, 4, 1, 1, 0, 1, 1+i, []string{"try", "wait"}[i%2], 0, 0, 0)
 		}
+		for i := 0; i < 3; i++ {
+			emit("mb", "dd", 0, 2+i%2, 4, 1+i%2, 1+i%2, 0, 1, 1+i, "try", 0, 0, 0)
+			emit("mb", "dn", 0, 2+i%2, 4, 1+i%2, 1+i%2, 0, 1, 1+i, "try", 0, 0, 0)
+		}
 		emit("bbp", "sc", 0, 1, 4, 1, 2, 0, 1, 2, "try", 0, 0, 0)
 		emit("bbp", "sn", 1, 1, 4, 1, 2, 0, 1, 2, "try", 0, 0, 0)
 	}
@@ -94,7 +100,7 @@ func genC37(g *Gen) {
 		if g.R.Chance(10) {
 			switch kind {
 			case "mb":
-				steer = []string{"wc", "wn"}[g.R.Intn(2)]
+				steer = []string{"wc", "wn", "dd", "dn"}[g.R.Pick(3, 3, 3, 1)]
 			case "bp":
 				steer = []string{"sc", "sn"}[g.R.Intn(2)]
 			case "bbp":
@@ -141,6 +147,16 @@ func genC37(g *Gen) {
 			closeAt, closeDl = 0, 0
 			prod = 1
 			per = g.R.Range(1, 4)
+		}
+		if steer == "dd" || steer == "dn" {
+			per = g.R.Range(1, 2)
+			if workers < 2 { // a second drain needs a second pool worker to become visible
+				workers = 2
+			}
+			if queue < 4 {
+				queue = 4
+			}
+			bwait = 0
 		}
 		emit(kind, steer, cancel, workers, queue, shards, bmax, bwait, prod, per, mode, closeAt, closeDl, hdl)
 	}
@@ -308,6 +324,10 @@ type c37Scn struct {
 	submit, submitWait                                 func(ctx context.Context, t int) error
 	closeFn                                            func(ctx context.Context) error
 	shardOf                                            func(t int) int
+	gateTask                                           atomic.Int64 // task whose handler is held (-1 none)
+	gateIn                                             chan struct{}
+	gateOut                                            chan struct{}
+	gateOnce                                           sync.Once
 }
 
 type c37Task struct{ id, shard int }
@@ -334,6 +354,27 @@ func (s *c37Scn) delay(t int) {
 	}
 }
 
+// gate holds the handler call that contains the gated task until released (or 3 s).
+func (s *c37Scn) gate(ids ...int) {
+	g := int(s.gateTask.Load())
+	if g < 0 || s.gateIn == nil {
+		return
+	}
+	for _, id := range ids {
+		if id == g {
+			s.gateOnce.Do(func() { close(s.gateIn) })
+			t := time.NewTimer(3 * time.Second)
+			select {
+			case <-s.gateOut:
+			case <-t.C:
+				s.log.add('T', 0, 0)
+			}
+			t.Stop()
+			return
+		}
+	}
+}
+
 func (s *c37Scn) handleOne(t c37Task) {
 	s.active.Add(1)
 	s.log.add('R', t.id, 0)
@@ -347,9 +388,12 @@ func (s *c37Scn) handleBatch(shard int, ts []c37Task, mailbox bool) {
 	if mailbox {
 		s.log.add('B', shard, 0)
 	}
+	ids := make([]int, 0, len(ts))
 	for _, t := range ts {
 		s.log.add('R', t.id, 0)
+		ids = append(ids, t.id)
 	}
+	s.gate(ids...)
 	for _, t := range ts {
 		s.delay(t.id)
 	}
@@ -602,6 +646,70 @@ func (s *c37Scn) runMailboxWindow(hold *c37Hold) {
 	s.settle()
 }
 
+// runMailboxDoubleDrain: an item X is admitted while the exiting drain sits between its final empty
+// check and finishShardDrain (dd) — or simply while nothing is queued (dn); the drain that picks X up is
+// held inside X's handler; meanwhile Y is submitted to the same shard.  The scheduled flag must keep Y from
+// starting a second drain: Y's batch may only begin after X's batch ended, and X runs before Y.
+func (s *c37Scn) runMailboxDoubleDrain(hold *c37Hold) {
+	accepted := map[int]bool{}
+	next := 0
+	sub := func() int {
+		id := next
+		next++
+		if s.doSubmit(context.Background(), id, false) == nil {
+			accepted[id] = true
+		}
+		return id
+	}
+	if hold != nil {
+		hold.armed.Store(true)
+	}
+	for i := 0; i < s.per; i++ {
+		sub()
+	}
+	if hold != nil {
+		c37Wait(s.log, hold.engaged, 2*time.Second)
+	} else {
+		s.waitAllAcceptedDone(nil, accepted)
+	}
+	s.gateTask.Store(int64(next))
+	x := sub()
+	if hold != nil {
+		hold.free()
+	}
+	if accepted[x] {
+		c37Wait(s.log, s.gateIn, 2*time.Second) // X's handler is running (and held)
+	}
+	y := sub()
+	if int(s.seed%2) == 0 {
+		sub()
+	}
+	// a second drain, if the protocol allowed one, starts within microseconds; give it time, never assert
+	deadline := time.Now().Add(100 * time.Millisecond)
+	for time.Now().Before(deadline) && !s.ran(y) {
+		time.Sleep(200 * time.Microsecond)
+	}
+	close(s.gateOut)
+	s.waitAllAcceptedDone(nil, accepted)
+	s.doClose(context.Background())
+	sub()
+	s.settle()
+}
+
+func (s *c37Scn) ran(t int) bool {
+	n := int(s.log.n.Load())
+	if n > len(s.log.buf) {
+		n = len(s.log.buf)
+	}
+	for i := 0; i < n; i++ {
+		e := &s.log.buf[i]
+		if e.set.Load() && e.k == 'R' && int(e.a) == t {
+			return true
+		}
+	}
+	return false
+}
+
 // runSubmitSelect: hold one Submit right before its final select (after the closed
 // check and the slot acquisition); (sc) Close completely meanwhile, or (sn) not.
 func (s *c37Scn) runSubmitSelect(hold *c37Hold) {
@@ -696,7 +804,7 @@ func (*c37Runner) Step(op string) string {
 	if s.prod*s.per > 256 || s.workers < 1 || s.queue < 1 || s.shards < 1 {
 		return "bad-op"
 	}
-	okSteer := map[string][]string{"bp": {"none", "sc", "sn"}, "bbp": {"none", "sc", "sn"}, "wq": {"none"}, "mb": {"none", "wc", "wn"}}
+	okSteer := map[string][]string{"bp": {"none", "sc", "sn"}, "bbp": {"none", "sc", "sn"}, "wq": {"none"}, "mb": {"none", "wc", "wn", "dd", "dn"}}
 	valid := false
 	for _, st := range okSteer[s.kind] {
 		valid = valid || st == s.steer
@@ -706,8 +814,13 @@ func (*c37Runner) Step(op string) string {
 	}
 	var hold *c37Hold
 	var obs *c37MailboxObserver
-	if s.steer != "none" {
+	s.gateTask.Store(-1)
+	if s.steer != "none" && s.steer != "dn" {
 		hold = newC37Hold(s.log, 2*time.Second)
+	}
+	if s.steer == "dd" || s.steer == "dn" {
+		s.gateIn = make(chan struct{})
+		s.gateOut = make(chan struct{})
 	}
 	if s.kind == "mb" {
 		obs = &c37MailboxObserver{log: s.log, phase: map[int]int{}, target: 0, hold: hold}
@@ -722,6 +835,8 @@ func (*c37Runner) Step(op string) string {
 		s.runMailboxWindow(hold)
 	case "sc", "sn":
 		s.runSubmitSelect(hold)
+	case "dd", "dn":
+		s.runMailboxDoubleDrain(hold)
 	}
 	return s.log.render()
 }
